@@ -59,14 +59,16 @@ Definition property08 (c : case08t) : bool :=
   let '(oc, o0, o1) := o in
   match kind with
   | 0 =>
-      let want := flatten_forest sw08 0 (erase_forest top) in
+      let want := flatten_forest 4 0 (erase_forest top) in
       let wantp := forest_parents None false 0 (erase_forest top) in
       str_eqb (join [NL] lines) (render_forest top ++ fin)
+      && wfT_lforest true top && all_ws4 fin
       && (unclosed_forest top =? 0)
       && match oc with Some t => strs_eqb want t | None => false end
       && ccp_is want wantp o0 && ccp_is want wantp o1
   | 1 =>
       str_eqb (join [NL] lines) (render_forest top ++ fin)
+      && wfT_lforest true top && all_ws4 fin
       && negb (unclosed_forest top =? 0)
       && match oc, o0, o1 with None, None, None => true | _, _, _ => false end
   | _ => true
@@ -75,5 +77,5 @@ Definition agree08t (c : case08t) : bool :=
   let '(top, fin, lines, kind, o) := c in fidelity08 lines o && property08 c.
 Definition show08t (c : case08t) :=
   let '(top, fin, lines, kind, o) := c in
-  (convert_junos sw08 lines, fidelity08 lines o, property08 c, wf_lforest true top, all_ws fin,
-   flatten_forest sw08 0 (erase_forest top), forest_parents None false 0 (erase_forest top)).
+  (convert_junos sw08 lines, fidelity08 lines o, property08 c, wfT_lforest true top, all_ws4 fin,
+   flatten_forest 4 0 (erase_forest top), forest_parents None false 0 (erase_forest top)).
